@@ -869,19 +869,31 @@ func TestVerifC09ClientRunner(t *testing.T) {
 	r.Rule = "the C10 scenarios whose fault is in the framing of the client's output (cut at every byte offset with exit status 0 and non-zero, after k answers incl. all of them; oversized / garbled length prefix; silence) with one and two senders, explored as in c10-gate; oracle as there plus: a cut stream is never reported as a clean end"
 	var scs []c10Scenario
 	for _, sc := range c10Scenarios(rep.Thorough()) {
+		paused := false
+		for _, ss := range sc.Senders {
+			for _, n := range ss {
+				if n == "@pause" {
+					paused = true
+				}
+			}
+		}
 		switch sc.Fault {
 		case "cut", "cut0", "oversize", "oversize-max", "garbage-high", "stall":
 		default:
-			continue
+			// also: a client that is silent for longer than the time-out while nothing is outstanding, then used
+			// again; and answers that arrive in pieces followed by silence
+			if !paused && !(sc.Fault == "stall" && len(sc.AnswerCuts) > 0) {
+				continue
+			}
 		}
-		if sc.StdinFault != "none" || sc.Sync || len(sc.AnswerCuts) > 0 {
+		if sc.StdinFault != "none" || sc.Sync || (len(sc.AnswerCuts) > 0 && sc.Fault != "stall") || sc.GhostSize > 0 {
 			continue
 		}
 		total := 0
 		for _, s := range sc.Senders {
 			total += len(s)
 		}
-		if !rep.Thorough() && total > 2 {
+		if !rep.Thorough() && total > 2 && !paused {
 			continue
 		}
 		sc.Bound = 1
